@@ -699,6 +699,7 @@ func runC19(r *Run) {
 	c19Transact(r)
 	c19Raw(r)
 	c19RawMonitor(r)
+	c19Notify(r)
 }
 
 // c19Raw: raw JSON-RPC over the server's socket: a transact request whose parameters are structurally
